@@ -7,6 +7,13 @@
 //	conc <res>                               => gauge
 //	sched <id0> <res> <b0,b1,…> <i0,i1,…|->  => [r0,…] max=<g>
 //	par <id0> <k> <res> <batch>              = sched id0 res b,…,b 0,…,k-1,0,…,k-1
+//	soak <res> <goroutines> <rounds> <batch> => gauge0=ok max<=<bound> rej=ok total=ok
+//
+// soak: real goroutines (GOMAXPROCS = NumCPU for the op, no hooks) loop Entry/Exit on the resource.  Only verdicts
+// are printed, never the racy values: gauge0 = the gauge is back to its value before the op once all have exited;
+// max = the largest gauge a worker read right after its own admission is within max(g0, N+z)+(goroutines-1)
+// (N = tightest threshold; g0+goroutines without rule) - the bound is printed and compared with the model's;
+// rej = nobody was rejected when g0+(goroutines-1)+batch <= N; total = admitted+blocked = attempted.
 //
 // sched: thread i is a goroutine calling api.Entry(res, WithBatchCount(b_i)); the yield hook
 // chain.between-check-and-stat (util/verifhook.Sched) parks it between the rule check and the statistic
@@ -22,6 +29,8 @@ import (
 	"runtime/debug"
 	"strconv"
 	"strings"
+	"sync"
+	"sync/atomic"
 
 	sentinel "github.com/alibaba/sentinel-golang/api"
 	"github.com/alibaba/sentinel-golang/core/base"
@@ -145,6 +154,7 @@ func (it *Interp) Step(t []string, op string) string {
 		if _, err := isolation.LoadRules(rules); err != nil {
 			return "err"
 		}
+		it.rules = rules
 		return ""
 	case "entry":
 		id := vh.U(t[1])
@@ -178,6 +188,8 @@ func (it *Interp) Step(t []string, op string) string {
 		return it.sched(vh.U(t[1]), t[3], bs, sch)
 	case "sched":
 		return it.sched(vh.U(t[1]), t[2], list(t[3]), list(t[4]))
+	case "soak":
+		return it.soak(t[1], int(vh.U(t[2])), int(vh.U(t[3])), u32(t[4]))
 	}
 	panic("unknown op " + t[0])
 }
@@ -257,4 +269,86 @@ func (it *Interp) sched(id0 uint64, res string, bs, sch []string) string {
 		}
 	}
 	return vh.List(out) + " max=" + fmt.Sprint(mx)
+}
+
+func (it *Interp) soak(res string, gor, rounds int, batch uint32) string {
+	g0 := int64(it.gauge(res))
+	minN, has := int64(0), false
+	for _, r := range it.rules {
+		if r.Resource == res && r.Threshold != 0 && (!has || int64(r.Threshold) < minN) {
+			minN, has = int64(r.Threshold), true
+		}
+	}
+	bound := g0 + int64(gor)
+	if has {
+		nz := minN
+		if batch == 0 {
+			nz++
+		}
+		if g0 > nz {
+			nz = g0
+		}
+		bound = nz + int64(gor) - 1
+	}
+	saved := verifhook.Sched
+	verifhook.Sched = nil
+	prev := runtime.GOMAXPROCS(runtime.NumCPU())
+	var wg sync.WaitGroup
+	var admitted, blocked, maxSeen int64
+	maxSeen = g0
+	start := make(chan struct{})
+	for w := 0; w < gor; w++ {
+		wg.Add(1)
+		go func() {
+			defer wg.Done()
+			<-start
+			var a, b, mx int64
+			for i := 0; i < rounds; i++ {
+				e, be := sentinel.Entry(res, sentinel.WithBatchCount(batch))
+				if be != nil {
+					b++
+					continue
+				}
+				if g := int64(it.gauge(res)); g > mx {
+					mx = g
+				}
+				e.Exit()
+				a++
+			}
+			atomic.AddInt64(&admitted, a)
+			atomic.AddInt64(&blocked, b)
+			for {
+				cur := atomic.LoadInt64(&maxSeen)
+				if mx <= cur || atomic.CompareAndSwapInt64(&maxSeen, cur, mx) {
+					break
+				}
+			}
+		}()
+	}
+	close(start)
+	wg.Wait()
+	runtime.GOMAXPROCS(prev)
+	verifhook.Sched = saved
+	out := make([]string, 0, 4)
+	if g := int64(it.gauge(res)); g == g0 {
+		out = append(out, "gauge0=ok")
+	} else {
+		out = append(out, fmt.Sprintf("gauge0=%d!=%d", g, g0))
+	}
+	if maxSeen <= bound {
+		out = append(out, fmt.Sprintf("max<=%d", bound))
+	} else {
+		out = append(out, fmt.Sprintf("max=%d>%d", maxSeen, bound))
+	}
+	if has && g0+int64(gor)-1+int64(batch) <= minN && blocked != 0 {
+		out = append(out, fmt.Sprintf("rej=%d", blocked))
+	} else {
+		out = append(out, "rej=ok")
+	}
+	if admitted+blocked == int64(gor)*int64(rounds) {
+		out = append(out, "total=ok")
+	} else {
+		out = append(out, fmt.Sprintf("total=%d+%d!=%d", admitted, blocked, int64(gor)*int64(rounds)))
+	}
+	return strings.Join(out, " ")
 }
